@@ -57,3 +57,10 @@ Example ex_abandon :
             strict_serial (map fst wit_abandon) (r_events r) = false /\
             existsb (fun pr => match p_st pr with PSent => true | _ => false end) (r_proms r) = true.
 Proof. eexists. split; [vm_compute; reflexivity|]. vm_compute. repeat split. Qed.
+
+(** a run that does not return: an (unfair) idle handler that never fulfils anything leaves the
+    executor stuck in the wait for the first root field; the order theorems speak about its log too *)
+Example ex_stuck :
+  exists s, run (fun _ _ => []) Mutation 5 ex_root = Stuck s /\
+            log_of (run (fun _ _ => []) Mutation 5 ex_root) = [EStart [PKey [97]]].
+Proof. eexists. split; vm_compute; reflexivity. Qed.
